@@ -299,12 +299,42 @@ func oneCase(c *kit.Case, r *kit.R) {
 				return
 			}
 			s2 := mem.NewStorageWithUnitSize(sh.Cap, sh.Unit)
+			var scribbled []interval
+			if rng.Intn(2) == 0 && sh.Cap > 0 {
+				// the receiving storage is not pristine (a roll-back inside one process): scribble over it first,
+				// both at places the checkpoint holds and at places it does not
+				for k := 0; k < 6; k++ {
+					a := uint64(rng.Int63n(int64(min64(sh.Cap, 1<<62))))
+					if k%2 == 0 && len(touched) > 0 {
+						a = touched[rng.Intn(len(touched))].a
+					}
+					n := uint64(1 + rng.Intn(24))
+					if a < sh.Cap && n <= sh.Cap-a {
+						junk := make([]byte, n)
+						for i := range junk {
+							junk[i] = 0xA5
+						}
+						s2.Write(a, junk)
+						scribbled = append(scribbled, interval{a, n})
+					}
+				}
+				r.Count("checkpoints_loaded_into_a_used_storage", 1)
+			}
 			if err := s2.LoadCheckpoint(bytes.NewReader(buf.Bytes())); err != nil {
 				c.Failf("storage/checkpoint-load-error", "LoadCheckpoint into same shape (capacity %d unit %d): %v", sh.Cap, sh.Unit, err)
 				return
 			}
 			ok := true
+			for _, t := range scribbled {
+				if !verify(s2, []interval{t}, "storage/checkpoint-load-keeps-old-contents", "after checkpoint load into a used storage") {
+					ok = false
+					break
+				}
+			}
 			for _, t := range touched {
+				if !ok {
+					break
+				}
 				if !verify(s2, []interval{t}, "storage/checkpoint-contents-differ", "after checkpoint load") {
 					ok = false
 					break
